@@ -372,8 +372,12 @@ func (dr *dirRepo) blobCreate(locked bool, opts ...BlobOpt) (BlobCreator, string
 		if err := conf.expect.Validate(); err != nil {
 			return nil, "", fmt.Errorf("invalid digest: %s: %w", string(conf.expect), err)
 		}
-		_, err := os.Stat(filepath.Join(dr.path, blobsDir, conf.expect.Algorithm().String(), conf.expect.Encoded()))
+		fn := filepath.Join(dr.path, blobsDir, conf.expect.Algorithm().String(), conf.expect.Encoded())
+		_, err := os.Stat(fn)
 		if err == nil {
+			// the blob was pushed again, restart the GC grace period
+			now := time.Now()
+			_ = os.Chtimes(fn, now, now)
 			return nil, "", types.ErrBlobExists
 		}
 	}
